@@ -20,7 +20,7 @@ RULE = ('count functions: every table 1<=a,b,c,d<=B (B=6 quick, 11 thorough) plu
         'non-trivial = distinct (function, table) or distinct frame signature')
 TRUSTED = ['pandas boolean masks and .sum() used by the zepid.base classes (modelled by Model.Frames, exercised by the run)']
 
-ALPHAS = [0.05, 0.01, 0.1, 0.5, 0.2]
+ALPHAS = [0.05, 0.01, 0.1, 0.5, 0.2, 0.0125, 1 / 3, 0.05 / 3, 1e-5, 0.999]   # incl. levels that are not round in 1 - alpha/2
 F4 = ['risk_ratio', 'risk_difference', 'odds_ratio', 'number_needed_to_treat']
 
 
